@@ -99,7 +99,9 @@ func ruleClampSymmetry(r *Run) {
 			}
 			dst := info.Uses[dstID]
 			if dst == nil {
-				dst = info.Defs[dstID]
+				// lastRow := min(maxRow, len-1): a new variable that holds the bounded value (a loop bound); nothing
+				// loses its value. Whether it is then used for the right axis is G3b / Q1.
+				return true
 			}
 			if dst != nil && srcObj != nil {
 				clamps = append(clamps, clamp{dst, srcObj, as.Pos(), as})
